@@ -335,7 +335,7 @@ func (t *tr) block(b *ssa.BasicBlock, heaps map[string]string) {
 			case *types.Slice:
 				s := t.v(x.X)
 				t.oblige("safe", t.nameAt("index", x.Pos(), pickIndex), R, fmt.Sprintf("(and (<= 0 %s) (< %s (slen %s)))", idx, idx, s), x.Pos())
-				t.define(x, "Loc", sliceElemLoc(s, mulConst(idx, stride(u.Elem()))))
+				t.define(x, "Loc", sliceElemLoc(s, idx, stride(u.Elem())))
 			default:
 				t.opaque(x, "IndexAddr on "+x.X.Type().String())
 			}
